@@ -713,8 +713,19 @@ class Normaliser:
                     if op in NEGORD and (intish(c.left) or intish(c.comparators[0])):
                         nz.note('N30', 'negated ordering on ints')
                         return ast.copy_location(ast.Compare(left=c.left, ops=[NEGORD[op]()], comparators=c.comparators), node)
-                if isinstance(node.op, ast.Not) and isinstance(node.operand, ast.UnaryOp) and isinstance(node.operand.op, ast.Not):
-                    return node     # double negation in a value position is not the operand itself (bool conversion); left alone
+                if isinstance(node.op, ast.Not) and isinstance(node.operand, ast.BoolOp) and getattr(node, '_in_test', False):
+                    # De Morgan (in a test position only: there the operands are used for their truth value)
+                    b = node.operand
+                    other = ast.Or() if isinstance(b.op, ast.And) else ast.And()
+                    vals = []
+                    for v in b.values:
+                        nv = ast.copy_location(ast.UnaryOp(op=ast.Not(), operand=v), v)
+                        nv._in_test = True
+                        vals.append(self.visit_UnaryOp(nv) if True else nv)
+                    nz.note('N30', 'De Morgan')
+                    return ast.copy_location(ast.BoolOp(op=other, values=vals), node)
+                if isinstance(node.op, ast.Not) and isinstance(node.operand, ast.UnaryOp) and isinstance(node.operand.op, ast.Not) and getattr(node, '_in_test', False):
+                    return node.operand.operand
                 return node
 
         def negate(t):
@@ -767,8 +778,39 @@ class Normaliser:
                         loops_in(b)
                 for h in getattr(st, 'handlers', []) or []:
                     loops_in(h.body)
+        def mark(e):
+            if isinstance(e, ast.BoolOp):
+                for v in e.values:
+                    mark(v)
+            elif isinstance(e, ast.UnaryOp) and isinstance(e.op, ast.Not):
+                e._in_test = True
+                mark(e.operand)
         for tree in self.trees.values():
+            for n in ast.walk(tree):
+                if isinstance(n, (ast.If, ast.While, ast.IfExp, ast.Assert)):
+                    mark(n.test)
+                elif isinstance(n, ast.comprehension):
+                    for c in n.ifs:
+                        mark(c)
             Neg().visit(tree)
+            # single-use generator held in a local and consumed by the very next statement: `m = (... for ...)` ; `x = next(m, None)`
+            for fn in fn_nodes(tree):
+                for blk in [fn.body] + [b for x in ast.walk(fn) for f_ in ('body', 'orelse', 'finalbody') for b in [getattr(x, f_, None)]
+                                        if isinstance(b, list) and b and isinstance(b[0], ast.stmt) and x is not fn]:
+                    k = 0
+                    while k + 1 < len(blk):
+                        a, b2 = blk[k], blk[k + 1]
+                        if isinstance(a, ast.Assign) and len(a.targets) == 1 and isinstance(a.targets[0], ast.Name) and isinstance(a.value, ast.GeneratorExp):
+                            nm = a.targets[0].id
+                            uses_ = [x for x in ast.walk(fn) if isinstance(x, ast.Name) and x.id == nm]
+                            calls = [x for x in ast.walk(b2) if isinstance(x, ast.Call) and isinstance(x.func, ast.Name) and x.func.id == 'next' and x.args
+                                     and isinstance(x.args[0], ast.Name) and x.args[0].id == nm]
+                            if len(uses_) == 2 and len(calls) == 1:
+                                calls[0].args[0] = a.value
+                                del blk[k]
+                                nz.note('N30', 'single-use generator inlined into next()')
+                                continue
+                        k += 1
             for fn in fn_nodes(tree):
                 loops_in(fn.body)
             ast.fix_missing_locations(tree)
